@@ -224,3 +224,21 @@ PROPS["C02"] = dict(
     engines=[pbt("c02_histories", libs=["rapidcheck", "snappy", "lz4"], quick=dict(cases=1200, size=60, enum=1, procs=6), thorough=dict(cases=12000, size=100, enum=2, procs=16))],
     min_evaluations=dict(quick=6000, thorough=150000),
 )
+
+PROPS["C03"] = dict(
+    title="File, mmap and in-memory-buffer reading are observationally equivalent",
+    level="exploration",
+    design_ref="DESIGN.md section 8, C03",
+    level_text=("Differential testing: one generated script (all metadata getters, schema accessors, row-group metadata incl. out-of-range indices, the statistics API, "
+                "a generated column-reader history on every chunk, a batch-reader run with generated batch size and projection) is executed on the same "
+                "reference-written file through carquet_reader_open, open with use_mmap, and open_buffer on an exact-size heap copy; the three transcripts must be "
+                "byte-identical. In every mode the row batches are retained while the batch reader is freed and are read again (ASan flags dangling views). "
+                "Half of the files consist of REQUIRED fixed-width uncompressed PLAIN columns so that zero-copy paths are actually taken. Exploration only."),
+    level_note="carquet_reader_is_mmap / can_zero_copy are called but excluded from the comparison (they describe how, not what); the retained-batch re-read relies on carquet.h ('pointers remain valid until the batch is freed')",
+    technique="property-based differential testing (rapidcheck) across the three I/O modes with transcript comparison under ASan",
+    rule=("case = (file, history ops, batch size, projection, verify_checksums). Non-trivial: some chunk has >= 2 pages, the file mixes zero-copy-eligible "
+          "(REQUIRED, fixed-width, uncompressed, PLAIN) and non-eligible columns, and batch_size exceeds the smallest page."),
+    assumptions=["transcripts contain only observable results (return values, levels, dense values, bitmaps, statuses), never addresses"],
+    engines=[pbt("c03_iomodes", libs=["rapidcheck", "snappy", "lz4"], quick=dict(cases=450, size=60, procs=8), thorough=dict(cases=8000, size=100, procs=16))],
+    min_evaluations=dict(quick=2500, thorough=100000),
+)
